@@ -865,6 +865,11 @@ def _resolve_action_conflicts(
                         # Adding _action_uid to avoid formatting flipping by black.
                         _action_uid = winning_event.action_uid
                         competing_flow_state.action_uids[index] = _action_uid
+                        # The open scopes of the flow must refer to the shared action as well
+                        for _, scope_action_uids in competing_flow_state.scopes.values():
+                            for idx, scope_action_uid in enumerate(scope_action_uids):
+                                if scope_action_uid == competing_event.action_uid:
+                                    scope_action_uids[idx] = _action_uid
                         del state.actions[competing_event.action_uid]
 
                     advancing_heads.append(head)
@@ -1376,6 +1381,10 @@ def slide(
                         action_event = action.stop_event({})
                         action.status = ActionStatus.STOPPING
                         _generate_umim_event(state, action_event)
+                    else:
+                        # The action is shared with other flows. This flow gave up its share
+                        # and must not release it a second time (outer scope or end of flow)
+                        _release_shared_action(flow_state, action_uid)
 
             # Remove scope from all heads
             for h in flow_state.heads.values():
@@ -1390,6 +1399,14 @@ def slide(
 
     # If we got this far, it means we had a match and the flow advanced
     return new_heads
+
+
+def _release_shared_action(flow_state: FlowState, action_uid: str) -> None:
+    """Remove all references of a flow to an action that is still used by other flows."""
+    if action_uid in flow_state.action_uids:
+        flow_state.action_uids.remove(action_uid)
+    for _, scope_action_uids in flow_state.scopes.values():
+        scope_action_uids[:] = [uid for uid in scope_action_uids if uid != action_uid]
 
 
 def _start_flow(state: State, flow_state: FlowState, event_arguments: dict) -> None:
